@@ -27,6 +27,7 @@ const (
 	kFreqNC                // NewChannelReq frequency: 100 Hz units below 2.4 GHz, 200 Hz units from 2.4 GHz
 	kGPSTime               // time.Duration carried as 32-bit seconds + 8-bit 1/256 s
 	kInt32                 // signed 32-bit LE
+	kBoolOr                // one wire bit carrying the OR of several bool fields (Path "A|B"); decoding sets each of them to the bit
 )
 
 type wf struct {
@@ -69,6 +70,11 @@ func UM(path string, byt, bit, width int, max int64) wf {
 }
 func B(path string, byt, bit int) wf {
 	return wf{Path: path, Kind: kBool, Byte: byt, Bit: bit, Width: 1}
+}
+// BOR: the wire bit is the OR of the bool fields named in paths ("ClassB|FPending": one position of FCtrl read as
+// ClassB on uplinks and as FPending on downlinks; the library keeps both fields and sets both when decoding).
+func BOR(paths string, byt, bit int) wf {
+	return wf{Path: paths, Kind: kBoolOr, Byte: byt, Bit: bit, Width: 1}
 }
 func E01(path string, byt, bit int) wf {
 	return wf{Path: path, Kind: kEnum01, Byte: byt, Bit: bit, Width: 1}
@@ -321,6 +327,12 @@ func expectedWire(in *absint.Interp, spec ws, val absint.Value, params map[strin
 					put(base+i, absint.False)
 				}
 			}
+		case kBoolOr:
+			or := absint.False
+			for _, lp := range fieldLeaves(f) {
+				or = in.D.M.Or(or, asBits(leaf(in, val, lp), lp).Bits()[0])
+			}
+			put(base, or)
 		case kBoolArr:
 			for i := 0; i < f.Width; i++ {
 				put(base+i, asBits(leaf(in, val, fmt.Sprintf("%s[%d]", f.Path, i)), f.Path).Bits()[0])
@@ -404,6 +416,8 @@ func sameValue(in *absint.Interp, a, b absint.Value, cond absint.Node) (bool, st
 // leaves enumerates the scalar leaves of a field per its kind (path, value).
 func fieldLeaves(f wf) []string {
 	switch f.Kind {
+	case kBoolOr:
+		return strings.Split(f.Path, "|")
 	case kBoolArr, kBytes, kBytesRev:
 		var out []string
 		for i := 0; i < f.Width; i++ {
